@@ -1,5 +1,158 @@
-(* C11 — placeholder while the development is being built *)
-From Coq Require Import List ZArith.
-From V Require Import C11.Model.
-Example C11_placeholder : True. Proof. exact I. Qed.
-Print Assumptions C11_placeholder.
+(* C11 — Inputs: glitches are ignored and every real actuation acts exactly once.
+   Property theorems only: each is closed by `exact` of a lemma proved in C11/Proofs.v or C11/Machine.v.
+
+   Vocabulary.  `mrun c ms (init c l0)`: the model of the input path (Model.v) after ANY list of
+   micro-steps `ms` (time passes / the pin changes level / one timer callback runs / the server
+   configures triggers) from the state right after supla_esp_gpio_init with the pin at l0.
+   `late s <= J`: in that schedule no armed timer was ever more than J microseconds overdue (lateness of
+   the SDK timers, including the ~10 ms the code itself spends in supla_esp_gpio_relay_hi).
+   `chg (outs s)`: number of calls of supla_esp_input_notify_state_change with a state different from
+   last_state ("recognised changes").  `rst c = true`: the code with docs/fixes/C11_debounce_restart.diff
+   (an edge while the sampler runs restarts the count); `rst c = false`: the code as it was. *)
+From Coq Require Import List ZArith Bool Lia.
+Import ListNotations.
+From V Require Import Base.U32 Gen.InputConsts C11.Model C11.Proofs C11.Machine.
+Local Open Scope Z_scope.
+
+(* ---- glitches are ignored (repaired code, literal strength) ----
+   After ANY edge, whatever the history and the phase of the running sampler, nothing is recognised for
+   STABLE_US - J = 100 ms - J; w may contain further edges. *)
+Theorem C11_glitch_rejected : forall c l0 J pre v w,
+  rst c = true ->
+  let s0 := mrun c pre (init c l0) in
+  let s1 := mstep c (MIn v) s0 in
+  let s2 := mrun c w s1 in
+  lvl s0 <> v -> 0 <= J -> late s2 <= J -> now s2 - now s1 < STABLE_US - J ->
+  chg (outs s2) = chg (outs s0) /\ last s2 = last s0.
+Proof. exact strict_thm. Qed.
+Print Assumptions C11_glitch_rejected.
+
+(* Any number of excursions away from the recognised level `old`, each shorter than 100 ms - J, however
+   close together and with any quiet times in between (`glitches`), is never recognised. *)
+Theorem C11_glitches_rejected : forall c J old s ms,
+  rst c = true -> 0 <= J -> WFh c s -> (halted s = false -> lvl s = old /\ last s = stl c old) ->
+  glitches c J old s ms -> late (mrun c ms s) <= J ->
+  chg (outs (mrun c ms s)) = chg (outs s) /\ last (mrun c ms s) = last s.
+Proof. exact glitches_thm. Qed.
+Print Assumptions C11_glitches_rejected.
+
+(* Form that also holds for the code before the fix (rst c arbitrary): once the old level has been
+   stable (> 120 ms + J), a burst of edges that spans less than ACCEPT_US = 120 ms and ends at the old
+   level is not recognised, whatever the lateness during the burst; afterwards the sampler is idle again. *)
+Theorem C11_glitch_rejected_idle : forall c l0 J pre qa bu qb,
+  let s0 := mrun c pre (init c l0) in
+  let s1 := mrun c qa s0 in
+  let s2 := mrun c bu s1 in
+  let s3 := mrun c qb s2 in
+  0 <= J -> late s3 <= J ->
+  no_in qa -> now s1 - now s0 > ACCEPT_US + J ->
+  now s2 - now s1 < ACCEPT_US -> lvl s2 = lvl s0 ->
+  no_in qb ->
+  chg (outs s3) = chg (outs s1) /\ last s3 = last s1 /\
+  (halted s3 = false -> last s3 = stl c (lvl s0) /\ (now s3 - now s2 > ACCEPT_US + J -> dstep s3 = 0)).
+Proof. exact glitch_idle_thm. Qed.
+Print Assumptions C11_glitch_rejected_idle.
+
+(* ---- a stable change is recognised exactly once (both variants of the code) ----
+   The pin goes to v and stays for more than ACCEPT_US + J = 120 ms + J (so: at least 140 ms when J < 20 ms),
+   at whatever phase of the sampler and after any history (`pre`): afterwards the recognised state is v,
+   the sampler has stopped, and exactly one notify changed last_state (none if it already was v). *)
+Theorem C11_accept_once : forall c l0 J pre v qw,
+  let s0 := mrun c pre (init c l0) in
+  let s1 := mstep c (MIn v) s0 in
+  let s2 := mrun c qw s1 in
+  0 <= J -> no_in qw -> late s2 <= J -> now s2 - now s1 > ACCEPT_US + J -> halted s2 = false ->
+  last s2 = stl c v /\ dstep s2 = 0 /\ lvl s2 = v /\
+  chg (outs s2) = (chg (outs s0) + once (last s0) (stl c v))%nat.
+Proof. exact accept_once_thm. Qed.
+Print Assumptions C11_accept_once.
+
+(* the numbers of the property text *)
+Corollary C11_accept_once_140ms : forall c l0 J pre v qw,
+  let s0 := mrun c pre (init c l0) in
+  let s1 := mstep c (MIn v) s0 in
+  let s2 := mrun c qw s1 in
+  0 <= J < 20000 -> no_in qw -> late s2 <= J -> now s2 - now s1 >= 140000 -> halted s2 = false ->
+  last s2 = stl c v /\ chg (outs s2) = (chg (outs s0) + once (last s0) (stl c v))%nat.
+Proof.
+  intros c l0 J pre v qw s0 s1 s2 HJ Hn Hl Hd Hh.
+  destruct (accept_once_thm c l0 J pre v qw ltac:(lia) Hn Hl ltac:(fold s0 s1 s2; rewrite accept_us; lia) Hh) as (a & _ & _ & b).
+  split; assumption.
+Qed.
+Print Assumptions C11_accept_once_140ms.
+Corollary C11_glitch_rejected_100ms : forall c l0 pre v w,
+  rst c = true ->
+  let s0 := mrun c pre (init c l0) in
+  let s1 := mstep c (MIn v) s0 in
+  let s2 := mrun c w s1 in
+  lvl s0 <> v -> late s2 <= 0 -> now s2 - now s1 < 100000 ->
+  chg (outs s2) = chg (outs s0) /\ last s2 = last s0.
+Proof. intros c l0 pre v w Hr s0 s1 s2 Hv Hl Hd. apply (strict_thm c l0 0 pre v w Hr Hv ltac:(lia) Hl). rewrite stable_us. exact Hd. Qed.
+Print Assumptions C11_glitch_rejected_100ms.
+
+(* ---- the code before the fix is refuted ----
+   seven 1 ms spikes in phase with the 20 ms sampler (7 ms at the active level in total, no timer late)
+   toggle the relay; the repaired code ignores them.  Replayed on the real code: corpus/C11/alias_spikes.txt *)
+Theorem C11_old_code_refuted :
+  filter is_gpio (outs (run (cfg_demo false) 0 alias_evs)) = [OGpio 820010 1] /\
+  chg (outs (run (cfg_demo false) 0 alias_evs)) = 2%nat /\
+  filter is_gpio (outs (run (cfg_demo true) 0 alias_evs)) = [] /\
+  chg (outs (run (cfg_demo true) 0 alias_evs)) = 0%nat /\
+  late (run (cfg_demo false) 0 alias_evs) = 0 /\ late (run (cfg_demo true) 0 alias_evs) = 0.
+Proof. exact old_code_refuted_thm. Qed.
+Print Assumptions C11_old_code_refuted.
+
+(* ---- plain mode: each recognised actuation acts on its relay exactly once ----
+   For an input that is not the configuration button, with no action trigger enabled (PlainV: active_triggers = 0,
+   button timer idle, relay level 0/1), EVERY micro-step other than a trigger configuration keeps plain mode and
+   * if it is an effective notify of state st_ (the sampler's sixth equal sample, silent start-up over, state new):
+     the relay wired to the input ends at `plain_expect` — monostable: toggled on the configured edge only,
+     bistable: toggled, motion: equal to the state — with exactly one GPIO edge when the level changes, none otherwise;
+   * if it is the motion-sensor start-up timer: not constrained here;
+   * otherwise: the relay and the list of relay edges are unchanged. *)
+Theorem C11_plain_once : forall c m s,
+  cfg_btn c = false -> is_trig m = false -> PlainV (view s) ->
+  let r := view (mstep c m s) in let v := view s in
+  PlainV r /\
+  match abs c m s with
+  | ANotify st_ =>
+      if negb (a_halted v) && effV c st_ v then
+        a_last r = st_ /\
+        (arelc v = false -> a_relay r = a_relay v /\ gpv r = gpv v) /\
+        (arelc v = true ->
+          match plain_expect c st_ (a_relay v) with
+          | Some h => a_relay r = h /\ gpv r = (if h =? a_relay v then [] else [OGpio (a_now v + RELAY_D1) h]) ++ gpv v
+          | None => a_relay r = a_relay v /\ gpv r = gpv v
+          end)
+      else a_relay r = a_relay v /\ gpv r = gpv v
+  | AMot => True
+  | _ => a_relay r = a_relay v /\ gpv r = gpv v
+  end.
+Proof. exact plain_once_thm. Qed.
+Print Assumptions C11_plain_once.
+
+(* ---- the executable scheduler that is compared with the C code only composes micro-steps, and the
+   machine-level theorems speak about it through `view` ---- *)
+Theorem C11_run_is_a_schedule : forall c l0 evs, run c l0 evs = mrun c (rev (tr (run c l0 evs))) (init c l0).
+Proof. exact run_is_mrun. Qed.
+Print Assumptions C11_run_is_a_schedule.
+Theorem C11_machine_simulation : forall c ms s, cfg_btn c = false -> forallb (fun m => negb (is_trig m)) ms = true ->
+  view (mrun c ms s) = arun c (atrace c ms s) (view s).
+Proof. intros; apply sim_run; assumption. Qed.
+Print Assumptions C11_machine_simulation.
+
+(* ---- non-vacuity: concrete schedules meet the hypotheses ---- *)
+Example C11_nonvacuous :
+  let c := cfg_demo true in
+  (* a press held 140 ms, no lateness: recognised once, relay toggled once *)
+  let s := run c 0 [EAdv 700000; EIn 1; EAdv 140000] in
+  let pre := rev (tr (run c 0 [EAdv 700000])) in
+  let qw := skipn (S (length pre)) (rev (tr s)) in
+  rev (tr s) = pre ++ MIn 1 :: qw /\ forallb (fun m => negb (is_in m)) qw = true /\ late s = 0 /\
+  now s - now (mstep c (MIn 1) (mrun c pre (init c 0))) = 140000 /\ halted s = false /\
+  last s = 1 /\ chg (outs s) = 1%nat /\ filter is_gpio (outs s) = [OGpio 820010 1] /\
+  (* a 99 ms pulse: hypotheses of C11_glitch_rejected_100ms hold, nothing recognised *)
+  let g := run c 0 [EAdv 700000; EIn 1; EAdv 99000] in
+  late g = 0 /\ chg (outs g) = 0%nat /\ now g = 799000.
+Proof. vm_compute. repeat split; reflexivity. Qed.
+Print Assumptions C11_nonvacuous.
